@@ -588,12 +588,17 @@ def enum_re(full):
     return out
 
 
-# ---- url_concat (ASCII, simple heads; see NOTES.md) ----
+# ---- url_concat (simple heads; arbitrary Unicode in query, fragment and arguments) ----
 HEADS = ["http://example.com/foo", "https://a.b-c.com:8080/x/y.z", "/", "/path/to", "", "http://h", "/a%20b", "/a@b,c=d&e!$'()*+",
          "https://h/", "/a//b"]
 QPIECES = ["a=b", "c", "=d", "e=", "a=b=c", "x=%41%7e%2B%26", "%zz=1", "sp=a+b", "%", "%4", "k=%25", "a=1", "a=2", "=", "q=a%3Db",
-           "t=%7E~", "p=%2b+", "h=%23"]
+           "t=%7E~", "p=%2b+", "h=%23",
+           # UTF-8: valid, raw, truncated, overlong, surrogate, beyond U+10FFFF, stray continuation, split by a raw character
+           "u=%C3%A9", "u=\u00e9", "e=%E2%82%AC", "g=%F0%9F%98%80", "t=%E2%82", "t=%E2", "t=%F0%9F%98", "o=%C0%AF", "o=%E0%80%AF",
+           "s=%ED%A0%80", "b=%F4%90%80%80", "b=%F5%80", "c=%80", "c=%BF%41", "m=%C3\u00e9%A9", "m=%E2%82%41", "m=%E2%41%82",
+           "m=%F0%9F%41", "\u4e2d=\U0001f600", "%C3%A9=%c3%a9", "n=\u00e9+%2B", "r=\ufffd", "x=%FF%FE", "f=%F0%90%80%80", "l=%EF%BF%BF"]
 ARG_CHARS = [chr(c) for c in range(32, 127)]
+UNI_CHARS = _chars([0x80, 0xE9, 0xFF, 0x100, 0x7FF, 0x800, 0x20AC, 0xD7FF, 0xE000, 0xFFFD, 0xFFFF, 0x10000, 0x1F600, 0x10FFFF])
 
 
 def gen_url(rng, tier, n):
@@ -604,7 +609,7 @@ def gen_url(rng, tier, n):
         r = rng.random()
         if r < 0.7:
             nq = rng.randrange(0, 5)
-            q = rng.choice(["&", "&&", "&"]).join(rng.choice(QPIECES) if rng.random() < 0.8 else _rs(rng, "xy=&%+417 ~", 0, 6) for _ in range(nq))
+            q = rng.choice(["&", "&&", "&"]).join(rng.choice(QPIECES) if rng.random() < 0.8 else _rs(rng, list("xy=&%+417 ~cCeEfF8aA9b") + UNI_CHARS[:4], 0, 8) for _ in range(nq))
             if rng.random() < 0.15:
                 q = "&" + q + "&"
             u += "?" + q
@@ -612,7 +617,7 @@ def gen_url(rng, tier, n):
             u += "?"
         fr = rng.random()
         if fr < 0.3:
-            u += "#" + rng.choice(["frag", "", "a?b", "a#b", "x=y&z", "%41", " s"])
+            u += "#" + rng.choice(["frag", "", "a?b", "a#b", "x=y&z", "%41", " s", "\u00e9\U0001f600", "%C3"])
         if rng.random() < 0.1:
             u = rng.choice([" ", "\n", "\x00 "]) + u
         if rng.random() < 0.1 and "?" in u:
@@ -620,9 +625,13 @@ def gen_url(rng, tier, n):
             u = u[:i] + rng.choice(["\t", "\n", "\r"]) + u[i:]
         args = []
         for _ in range(rng.choice([0, 1, 1, 2, 3])):
-            k = rng.choice(["c", "a", "k y", "", "x&y", "e=f", "p+q", "h#i", "%41", "~._-"]) if rng.random() < 0.7 else _rs(rng, ARG_CHARS, 0, 5)
-            v = rng.choice(["d", "", "d e", "1&2", "a=b", "50%", "?", "/x", "~"]) if rng.random() < 0.6 else _rs(rng, ARG_CHARS + ["\x00", "\x7f", "\n"], 0, 6)
+            k = rng.choice(["c", "a", "k y", "", "x&y", "e=f", "p+q", "h#i", "%41", "~._-", "\u00e9", "\u4e2d\u6587"]) if rng.random() < 0.7 else _rs(rng, ARG_CHARS + UNI_CHARS, 0, 5)
+            v = rng.choice(["d", "", "d e", "1&2", "a=b", "50%", "?", "/x", "~", "\u20ac 5", "\U0001f600"]) if rng.random() < 0.6 else _rs(rng, ARG_CHARS + UNI_CHARS + ["\x00", "\x7f", "\n"], 0, 6)
+            if rng.random() < 0.04:
+                v += rng.choice(["\ud800", "\udfff", "\udc80"])      # lone surrogate: UnicodeEncodeError
             args.append([k, v])
+        if rng.random() < 0.03 and "?" in u and "#" not in u:
+            u += "&s=\udcff"
         keys = [k for k, _ in args]
         out.append(mk("url", u, args=args, as_dict=(len(set(keys)) == len(keys) and rng.random() < 0.3)))
     return out
@@ -634,12 +643,28 @@ def enum_url(full):
         out.append(mk("url", "/p?a=b", args=[[chr(c), "v" + chr(c)]]))
         if full:
             out.append(mk("url", "/p?k" + ("" if chr(c) in "#" else chr(c)) + "=1", args=[]))
-            out.append(mk("url", "/p?k=%" + "%02x" % c, args=[["z", ""]]))
+    for c in (range(0, 256) if full else range(0x7E, 0x100, 3)):
+        out.append(mk("url", "/p?k=%" + "%02x" % c, args=[["z", ""]]))
+    boundary = [0x7F, 0x80, 0x7FF, 0x800, 0xFFF, 0x1000, 0xD7FF, 0xD800, 0xDFFF, 0xE000, 0xFFFF, 0x10000, 0x3FFFF, 0x40000, 0xFFFFF, 0x100000, 0x10FFFF]
+    for c in boundary:
+        out.append(mk("url", "/p", args=[[chr(c), "x" + chr(c)]]))
+        out.append(mk("url", "/p?q=%41" + chr(c) + "%42", args=[] if 0xD800 <= c <= 0xDFFF else [["n", "v"]]))
     if full:
         alpha = ["x", "=", "&", "%", "4", "1", "+"]
         for L in range(0, 5):
             for t in itertools.product(alpha, repeat=L):
                 out.append(mk("url", "/p?" + "".join(t), args=[["n", "v"]]))
+        # every pair of bytes after a lead byte class representative, and selected triples
+        leads = [0x41, 0x80, 0xBF, 0xC0, 0xC2, 0xDF, 0xE0, 0xE1, 0xED, 0xEF, 0xF0, 0xF1, 0xF4, 0xF5, 0xFF]
+        seconds = [0x41, 0x7F, 0x80, 0x8F, 0x90, 0x9F, 0xA0, 0xBF, 0xC0, 0xFF]
+        for a in leads:
+            for b in seconds:
+                out.append(mk("url", "/p?k=%%%02X%%%02X" % (a, b), args=[]))
+                for c in (0x41, 0x80, 0xBF, 0xC2):
+                    out.append(mk("url", "/p?k=%%%02X%%%02X%%%02X" % (a, b, c), args=[]))
+                    if a >= 0xF0:
+                        for d in (0x41, 0x80, 0xBF):
+                            out.append(mk("url", "/p?k=%%%02X%%%02X%%%02X%%%02X" % (a, b, c, d), args=[]))
     return out
 
 
@@ -739,6 +764,13 @@ def gen_ip(rng, tier, n):
     return out
 
 
+def coq_select(i, case):
+    # the at-the-limit netloc (4300 digits) yields a 4300-digit integer literal in the observable, which
+    # coqc takes minutes to read; it is run on the implementation (never-raise oracle) but not in Coq.
+    # The over-the-limit witness (4301 digits, no port) is a corpus case and is evaluated in Coq.
+    return not (case["f"] == "hp" and len(case.get("s", "")) == 4302 and case["s"].endswith("7" * 4300))
+
+
 def corpus_cases():
     return [
         # witnesses of the defects fixed by commits 7556c41 / deca566 (all used to raise)
@@ -747,6 +779,8 @@ def corpus_cases():
         mk("ph", "x; a*=b\x00c'en'val"),
         mk("ph", "x; a*=idna''abc"),
         mk("ph", "x; a*=undefined''abc"),
+        mk("ph", "form-data; name=f; filename*=utf\x008''abc"), mk("ph", "attachment; filename*0*=\x00'en'a%20b; filename*1=c"),
+        mk("ph", "form-data; name=f; filename*=\ud800''abc"),
         mk("ph", "x; a*" + "1" * 4301 + "=b"),
         mk("hp", "a:" + "1" * 4301),
         # doctests and tests of the repository
@@ -754,6 +788,9 @@ def corpus_cases():
         mk("ph", 'form-data; name="files"; filename="ab;c.txt"'),
         mk("eh", None, k="permessage-deflate", ps=[["client_max_window_bits", "15"], ["client_no_context_takeover", None]]),
         mk("eh", None, k="form-data", ps=[["name", "a=b/c"], ["x", ""], ["y", "<"], ["z", "<q>"]]),
+        # commit 8596f7f: a quoted value ending in an escaped backslash no longer swallows the next parameter
+        mk("ph", 'form-data; name="a\\\\"; filename="f.txt"'), mk("ph", 'x; a="b;c\\'), mk("ph", 'x; a="b\\";c"; d="e;f'),
+        mk("ph", 'x; a=b"c;d"e; f'), mk("ph", 'x; a="\\\n;"; b=1'),
         # commit 69a3466: a quoted value containing quotes keeps them; RFC 2231 values are unquoted once
         mk("ph", 'x; name="\\"x\\""'), mk("ph", 'x; name="a\\\\b"; f*0="p\\"q"; f*1=r'), mk("ph", "x; a*=utf-8''%22q%22%5C"),
         mk("req", "GET /foo HTTP/1.1"), mk("resp", "HTTP/1.1 200 OK"), mk("resp", "HTTP/1.1 200 "), mk("resp", "HTTP/1.1 200"),
@@ -764,6 +801,9 @@ def corpus_cases():
         mk("url", "http://example.com/foo?a=b", args=[["c", "d"], ["c", "d2"]], as_dict=False),
         mk("url", "http://example.com/foo", args=[["c", "d"]], as_dict=True),
         mk("url", "/x?a=b&&c&=d&e=%zz%41+#frag?x#y", args=[["c", "d e"]], as_dict=False),
+        mk("url", "http://a/x?a=b&&c&=d&e=%zz%41+#frag?x#y", args=[["c", "d e"], ["\u00e9", "\u20ac"]], as_dict=False),
+        mk("url", "/p?k=%C3%A9&t=%E2%82&s=%ED%A0%80&m=%C3\u00e9%A9#\u00e9", args=[["\U0001f600", "x"]], as_dict=False),
+        mk("url", "/p?a=b", args=[["k", "\ud800"]], as_dict=False),
         mk("date", None, t=1359312200),
         mk("esc", "a.b c\u00e9_\x00"), mk("unesc", "\\a"), mk("unesc", "a\\"),
         mk("ip", "127.0.0.1"), mk("ip", "4.4.4.4"), mk("ip", "::1"), mk("ip", "2620:0:1cfe:face:b00c::3"),
@@ -859,7 +899,8 @@ TRUSTED_BASE = [
     "EXTENDED values (charset'lang'%XX, decoded by Python's codec registry) are abstracted to the tag Ext2231 (the harness "
     "only checks that the real call returns)",
     "urllib.parse urlparse/urlunparse: the part of the URL before '?'/'#' is assumed to be reproduced verbatim for the simple "
-    "heads the generator uses (http(s)://host[:port][/path], /path, empty); url_concat is modelled on ASCII input only",
+    "heads the generator uses (http(s)://host[:port][/path], /path, empty); query splitting, percent coding and UTF-8 "
+    "(strict encode, decode with errors='replace') are modelled for arbitrary Unicode",
     "email.utils.formatdate / parsedate and calendar.timegm: replaced by civil-date arithmetic and a fixed-width reader, "
     "compared on every generated timestamp",
     "is_valid_ip: getaddrinfo(AI_NUMERICHOST) is modelled only on the classes the property names (plain dotted quads, plain "
@@ -867,7 +908,7 @@ TRUSTED_BASE = [
 ]
 ASSUMPTIONS = [
     "text is a list of code points; str.lower above U+00FF is the identity in the model (generator uses caseless code points there)",
-    "url_concat theorems: ASCII URL and arguments, percent escapes of the existing query decode to ASCII, simple head",
+    "url_concat theorems: simple head (the part of the URL before ? / #)",
     "date round trip: years 0100..9999 (email.utils.parsedate reinterprets years below 100)",
 ]
 RULE = ("per-function structured generators (mostly valid inputs, then 1-3 random edits from an alphabet of boundary code points "
